@@ -23,9 +23,11 @@ from harness.framework import Check
 from harness.props import orchhist_common as oc
 
 PROP = "C08"
-FLAGS = ["q_dry_keeps_storage", "q_lintfile_leaves_evidence", "q_consts_in_processing_order", "q_ignore_parser_reused"]
+FLAGS = ["q_dry_keeps_storage", "q_lintfile_leaves_evidence", "q_consts_in_processing_order", "q_ignore_parser_reused",
+         "q_dry_config_sticky", "q_fp_config_sticky"]
 HEADER = "From Coq Require Import NArith.\nFrom TL Require Import Lib.Base Model.OrchHist Model.OrchHistRun Actual.OrchHistActual.\n"
 LINT_KINDS = ("LintFile", "LintFiles", "LintDir", "ApiFile", "ApiDir")
+OBJECT_OPS = ("NewLinter", "ReloadConfig")
 CLI_COMMANDS = ["blocking-async", "clone-abuse", "dry", "file-header", "file-placement", "improper-logging", "lazy-ignores", "lbyl",
                 "magic-numbers", "method-property", "nesting", "perf", "pipeline", "print-statements", "regex-in-loop", "srp",
                 "stateless-class", "string-concat-loop", "stringly-typed", "unwrap-abuse"]
@@ -52,29 +54,20 @@ def gen_history(r, proj: dict, n_ops: int) -> list:
             if items and r.random() < 0.6:
                 items.pop(r.randrange(len(items)))
             items.append(["U", 0, tag + str(r.randrange(1000))])
-        proj["contents"].append([path, items, curk[0]])
+        proj["contents"].append([path, items])
         return len(proj["contents"]) - 1
 
-    curk = [0]
+    cfgp = paths.index(oc.CONFIG_NAME)
+    cfg_versions = [cid for cid, e in enumerate(proj["contents"]) if e[0] == oc.CONFIG_NAME]
 
     def config_change():
-        """a new configuration for the same root, then (configuration is read at construction) a new Linter in the same
-        process; for the model every file gets a new version: a content id stands for (text, configuration)"""
-        proj.setdefault("configs", [proj["config"]])
-        proj["configs"].append(oc.config_variant(r, proj["configs"][curk[0]]))
-        curk[0] = len(proj["configs"]) - 1
-        ops = []
-        cfgp = paths.index(oc.CONFIG_NAME)
-        proj["contents"].append([oc.CONFIG_NAME, ["CONFIG", curk[0]], curk[0]])
-        fs[cfgp] = len(proj["contents"]) - 1
-        ops.append(["Edit", cfgp, fs[cfgp]])
-        for p in sorted(fs):
-            if p == cfgp:
-                continue
-            proj["contents"].append([paths[p], proj["contents"][fs[p]][1], curk[0]])
-            fs[p] = len(proj["contents"]) - 1
-            ops.append(["Edit", p, fs[p]])
-        return ops + [["NewLinter"]]
+        """another configuration file for the same root (other file-placement rules or none, other thresholds), then either a
+        new Linter in the same process or a reload of the configuration into the live object"""
+        others = [c for c in cfg_versions if c != fs[cfgp]]
+        if not others:
+            return [["NewLinter"]]
+        fs[cfgp] = r.choice(others)
+        return [["Edit", cfgp, fs[cfgp]], [r.choice(["NewLinter", "ReloadConfig", "ReloadConfig"])]]
 
     def pick_dir():
         live = [di for di, d in enumerate(proj["dirs"]) if any(oc.in_dir(d, paths[p]) for p in fs)]
@@ -89,7 +82,7 @@ def gen_history(r, proj: dict, n_ops: int) -> list:
             ops = [["Delete", ign]]
             del fs[ign]
         else:
-            proj["contents"].append([oc.IGNORE_NAME, ["IGNORE", new], curk[0]])
+            proj["contents"].append([oc.IGNORE_NAME, ["IGNORE", new]])
             c = len(proj["contents"]) - 1
             ops = [["Edit" if ign in fs else "Add", ign, c]]
             fs[ign] = c
@@ -107,7 +100,6 @@ def gen_history(r, proj: dict, n_ops: int) -> list:
     elif templates < 0.3 and len(code_files()) >= 2:      # single-file call, then a batch elsewhere
         a, b = r.sample(code_files(), 2)
         hist += [[r.choice(["LintFile", "ApiFile"]), a], ["LintFiles", [b]]]
-    n_ops += sum(1 for o in hist if o[0] == "Edit")      # the re-versioning edits of a configuration change do not count
     while len(hist) < n_ops:
         x = r.random()
         cf = code_files()
@@ -140,9 +132,7 @@ def gen_history(r, proj: dict, n_ops: int) -> list:
             if y < 0.45:
                 hist += ignore_edit()
             elif y < 0.85:
-                ce = config_change()
-                n_ops += len(ce) - 2
-                hist += ce
+                hist += config_change()
             else:
                 hist.append(["NewLinter"])
         else:
@@ -232,7 +222,7 @@ def _call(lin, root: Path, proj: dict, op: list):
 _iso_counter = [0]
 
 
-def _fresh_call(root: Path, proj: dict, op: list) -> list:
+def _fresh_call(root: Path, proj: dict, op: list, prepare=None) -> list:
     """the call on a Linter built as in a fresh process, released before returning.  'Fresh process' is approximated in
     this process by (i) dropping the ignore-parser singleton (put back afterwards for the object under test) and (ii) running
     on a COPY of the project under a directory never used before, so that no process-wide table keyed by project root or by
@@ -241,6 +231,8 @@ def _fresh_call(root: Path, proj: dict, op: list) -> list:
     _iso_counter[0] += 1
     iso = root.parent / f"iso{_iso_counter[0]}" / "proj"
     shutil.copytree(root, iso, symlinks=True)
+    if prepare is not None:
+        prepare(iso)
     cwd = os.getcwd()
     try:
         with oc.ProcessStateGuard():
@@ -255,20 +247,17 @@ def _fresh_call(root: Path, proj: dict, op: list) -> list:
         shutil.rmtree(iso.parent, ignore_errors=True)
 
 
-def _perfile_call(root: Path, proj: dict, p: int) -> list:
-    """what the rules' check() returns for this file when it IS linted: measured on a fresh object with the ignore file
-    moved out of the way (whether a path is ignored is a separate parameter of the model)"""
-    ig = root / oc.IGNORE_NAME
-    saved = ig.read_bytes() if ig.exists() and proj["paths"][p] != oc.IGNORE_NAME else None
-    if saved is not None:
-        st = ig.stat()
-        ig.unlink()
-    try:
-        return _fresh_call(root, proj, ["LintFile", p])
-    finally:
-        if saved is not None:
-            ig.write_bytes(saved)
-            os.utime(ig, ns=(st.st_atime_ns, st.st_mtime_ns))
+def _perfile_call(root: Path, proj: dict, p: int, cfg_cid) -> list:
+    """what the rules' check() returns for this file when it IS linted under configuration version cfg_cid: measured on a
+    fresh object, on a project copy whose ignore file is moved out of the way (whether a path is ignored is a separate
+    parameter of the model) and whose configuration file holds that version"""
+    def prepare(iso: Path):
+        ig = iso / oc.IGNORE_NAME
+        if ig.exists() and proj["paths"][p] != oc.IGNORE_NAME:
+            ig.unlink()
+        if cfg_cid is not None:
+            (iso / oc.CONFIG_NAME).write_text(oc.content_text(proj, cfg_cid))
+    return _fresh_call(root, proj, ["LintFile", p], prepare)
 
 
 def run_impl(case: dict) -> dict:
@@ -276,7 +265,7 @@ def run_impl(case: dict) -> dict:
     ensure_repo_on_path()
     install_failure_tap()
     proj = case["proj"]
-    res = {"ops": [], "impl": [], "fresh": [], "pf": [], "side": [], "tmp_left": [], "failures": [], "error": None}
+    res = {"ops": [], "impl": [], "fresh": [], "pf": [], "fp": [], "side": [], "tmp_left": [], "failures": [], "error": None}
     old_tmp = tempfile.tempdir
     old_cwd = os.getcwd()
     with scratch_dir("tv-c08-") as d:
@@ -291,10 +280,17 @@ def run_impl(case: dict) -> dict:
             res["hard"], res["ign"] = oc.path_flags(root, proj)
             lin = oc.fresh_linter(root)
             measured = set()
+            cfgp = proj["paths"].index(oc.CONFIG_NAME)
+            seen_cfgs = []
             for si, op in enumerate(case["history"]):
-                if op[0] == "NewLinter":
-                    del lin
-                    lin = oc.same_process_linter(root)   # nothing is cleared: what a long-lived process does
+                if op[0] in OBJECT_OPS:
+                    if op[0] == "NewLinter":
+                        del lin
+                        lin = oc.same_process_linter(root)   # nothing is cleared: what a long-lived process does
+                    else:
+                        # the embedding reloads the configuration file into the live object
+                        lin.config = lin.config_loader.load(root / oc.CONFIG_NAME)
+                        lin.orchestrator.config = lin.config
                     res["ops"].append(op)
                     res["impl"].append([])
                     res["fresh"].append([])
@@ -326,12 +322,22 @@ def run_impl(case: dict) -> dict:
                     look = op[1]
                 else:
                     look = [p for p in op[2] if oc.in_dir(proj["dirs"][op[1]], proj["paths"][p])]
+                if fs.get(cfgp) not in seen_cfgs:
+                    seen_cfgs.append(fs.get(cfgp))
                 for p in look:
-                    key = (p, fs.get(p))
-                    if key in measured:
-                        continue
-                    measured.add(key)
-                    res["pf"].append([p, fs.get(p), _perfile_call(root, proj, p)])
+                    # per-file tables for this file version under every configuration the object has held so far
+                    # (DRYRule / FilePlacementRule may still be using an earlier one)
+                    for kc in seen_cfgs:
+                        key = (p, fs.get(p), kc)
+                        if key in measured:
+                            continue
+                        measured.add(key)
+                        vs = _perfile_call(root, proj, p, kc)
+                        ver = None if fs.get(p) is None else oc.enc_version(fs[p], kc)
+                        if ver is None and any(e[0] == p and e[1] is None for e in res["pf"]):
+                            continue
+                        res["pf"].append([p, ver, [v for v in vs if not str(v[0]).startswith("file-placement")]])
+                        res["fp"].append([p, ver, [v for v in vs if str(v[0]).startswith("file-placement")]])
             del lin
             import gc
             gc.collect()
@@ -349,30 +355,34 @@ def run_impl(case: dict) -> dict:
 
 
 def measure_queries(job) -> list:
-    """job = (proj, [(kind, n_pending, [(pid, cid), ...]), ...]) -> canonical violations per query"""
+    """job = (proj, [(kind, n_pending, report_cfg_key, [(pid, version), ...]), ...]) -> canonical violations per query.
+    version = enc content configuration; report_cfg_key = 0 (none) or content id of the configuration file version + 1."""
     proj, queries = job
     ensure_repo_on_path()
     install_failure_tap()
     out = []
     mproj = json.loads(json.dumps(proj))
-    roots: dict = {}
+    force = mproj.get("_force_config")
     with scratch_dir("tv-c08-m-") as d, oc.AnalyzeMemo():
-        for kind, npend, ev in queries:
-            # all file versions of an evidence list belong to one configuration version (a new configuration means a new
-            # Linter, whose rule objects start empty): measure under that configuration, in a root of its own
-            k = oc.content_cfg(mproj, ev[0][1]) if ev else 0
-            if k not in roots:
-                cfg = json.loads(json.dumps(oc.config_of(mproj, k)))
-                cfg.setdefault("dry", {"enabled": False})["storage_mode"] = "memory"   # the report does not depend on where SQLite keeps its rows
-                kp = json.loads(json.dumps(mproj))
-                kp["config"] = cfg      # what the root's .thailint.yaml says; kp["configs"] keeps the texts of all versions
-                root = d / f"m{k}" / "proj"
-                root.mkdir(parents=True)
-                oc.write_project(root, kp, {kk: v for kk, v in kp["fs0"].items() if kp["paths"][int(kk)] in (oc.CONFIG_NAME, oc.IGNORE_NAME)})
-                roots[k] = (root, kp)
-            root, kp = roots[k]
+        root = d / "m" / "proj"
+        root.mkdir(parents=True)
+        oc.write_project(root, mproj, {kk: v for kk, v in mproj["fs0"].items() if mproj["paths"][int(kk)] in (oc.CONFIG_NAME, oc.IGNORE_NAME)})
+        # every configuration-file version, loaded the way the implementation loads it (in a directory of its own)
+        cfg_dicts = {}
+        for cid, e in enumerate(mproj["contents"]):
+            if e[0] != oc.CONFIG_NAME:
+                continue
+            cd = d / f"cfg{cid}" / "proj"
+            cd.mkdir(parents=True)
+            dct = json.loads(json.dumps(force if force is not None else oc.config_of_cid(mproj, cid)))
+            dct.setdefault("dry", {"enabled": False})["storage_mode"] = "memory"   # the report does not depend on where SQLite keeps its rows
+            import yaml
+            (cd / oc.CONFIG_NAME).write_text(yaml.safe_dump(dct, sort_keys=True))
+            cfg_dicts[cid] = dict(oc.fresh_linter(cd).orchestrator.config)
+        for kind, npend, rkey, ev in queries:
             try:
-                out.append(oc.measure_report(root, kp, kind, ev, npend))
+                triples = [(pid,) + oc.dec_version(ver) for pid, ver in ev]
+                out.append(oc.measure_report(root, mproj, kind, triples, npend, (rkey - 1) if rkey else None, cfg_dicts))
             except Exception as e:  # noqa: BLE001
                 out.append({"error": f"{type(e).__name__}: {e}"})
     drain_failures()
@@ -382,7 +392,8 @@ def measure_queries(job) -> list:
 # ------------------------------------------------------------------ Coq side
 def _coq_ctx(case, impl) -> str:
     proj = case["proj"]
-    return f"{oc.coq_nat_list(impl['hard'])} {oc.coq_ign(impl['ign'])} {proj['paths'].index(oc.IGNORE_NAME)} {oc.coq_dirs(proj)}"
+    return (f"{oc.coq_nat_list(impl['hard'])} {oc.coq_ign(impl['ign'])} {proj['paths'].index(oc.IGNORE_NAME)} "
+            f"{proj['paths'].index(oc.CONFIG_NAME)} {oc.coq_dirs(proj)}")
 
 
 def _hist(ops) -> str:
@@ -408,7 +419,7 @@ def phase_queries(cases, impls, wd: Path, per_shard=12, th=None):
             if key in seen:
                 continue
             seen.add(key)
-            lst.append((enc[0], enc[1], [(enc[i], enc[i + 1]) for i in range(2, len(enc), 2)]))
+            lst.append((enc[0], enc[1], enc[2], [(enc[i], enc[i + 1]) for i in range(3, len(enc), 2)]))
         res.append(lst)
     return res
 
@@ -418,11 +429,12 @@ def phase_judge(cases, impls, queries, measured, wd: Path, per_shard=8, th=None)
     for case, impl, qs, ms in zip(cases, impls, queries, measured):
         ids = oc.Ids()
         pf_tbl = "[" + "; ".join(f"({p}, {coq.coq_option(c)}, {oc.coq_N_list(ids.many(vs))})" for p, c, vs in impl["pf"]) + "]"
+        pf_tbl += " [" + "; ".join(f"({p}, {coq.coq_option(c)}, {oc.coq_N_list(ids.many(vs))})" for p, c, vs in impl["fp"]) + "]"
         rows = []
-        for (kind, npend, ev), m in zip(qs, ms):
+        for (kind, npend, rkey, ev), m in zip(qs, ms):
             if isinstance(m, dict):
                 continue   # unmeasurable query: the lookup yields the sentinel
-            key = [kind, npend] + [x for pc in ev for x in pc]
+            key = [kind, npend, rkey] + [x for pc in ev for x in pc]
             rows.append(f"({oc.coq_nat_list(key)}, {oc.coq_N_list(ids.many(m))})")
         rep_tbl = "[" + "; ".join(rows) + "]"
         imp = "[" + "; ".join(oc.coq_N_list(ids.many(s)) for s in impl["impl"]) + "]"
@@ -543,6 +555,106 @@ def judge_cli(chk: Check, obs: dict):
                            "case": case})
 
 
+# ------------------------------------------------------------------ suppression comments changed between runs (validated, not modelled)
+DIR_KEY = "st_ignore_content_cache_stale"
+DIRECTIVES = ["# thailint: ignore-file[stringly-typed]\n", "# thailint: ignore-file\n", "# thailint: ignore-file[dry]\n"]
+
+
+def directive_cases(seed: int, n: int) -> list:
+    """small projects whose files share a stringly-typed pattern and a duplicate block; between the runs of one long-lived
+    Linter a file-level suppression comment is added to / removed from one file"""
+    out = []
+    for i in range(n):
+        r = rng_for(seed, PROP, "directive", i)
+        names = r.sample(["a.py", "b.py", "pkg/c.py", "pkg/d.py"], r.randint(2, 3))
+        sv, bv = r.randrange(len(oc.PY_STRINGLY)), r.randrange(len(oc.PY_BODIES))
+        files = {nm: '"""m."""\n\n' + oc.PY_STRINGLY[sv].format(n=f"f{j}") + "\n\n" + oc.PY_BODIES[bv].format(n=f"f{j}") for j, nm in enumerate(names)}
+        steps = []
+        has = {nm: None for nm in names}
+        if r.random() < 0.5:                       # start with a suppressed file
+            nm = r.choice(names)
+            has[nm] = r.choice(DIRECTIVES)
+        init = dict(has)
+        for _ in range(r.randint(2, 4)):
+            nm = r.choice(names)
+            has[nm] = None if has[nm] else r.choice(DIRECTIVES)
+            steps.append([nm, has[nm]])
+        out.append({"i": i, "files": files, "init": init, "steps": steps})
+    return out
+
+
+def run_directive_case(case: dict) -> dict:
+    ensure_repo_on_path()
+    install_failure_tap()
+    res = {"runs": [], "error": None}
+    old_cwd = os.getcwd()
+    proj = {"paths": []}
+    with scratch_dir("tv-c08-d-") as d:
+        root = d / "proj"
+        root.mkdir()
+        try:
+            (root / oc.CONFIG_NAME).write_text("dry:\n  enabled: true\n  min_duplicate_lines: 3\n  min_duplicate_tokens: 10\n")
+            cur = dict(case["init"])
+
+            def write(nm):
+                f = root / nm
+                f.parent.mkdir(parents=True, exist_ok=True)
+                f.write_text((cur[nm] or "") + case["files"][nm])
+            for nm in case["files"]:
+                write(nm)
+            os.chdir(root)
+            lin = oc.fresh_linter(root)
+            for k in range(len(case["steps"]) + 1):
+                if k:
+                    nm, dr = case["steps"][k - 1]
+                    cur[nm] = dr
+                    write(nm)
+                used = sorted(oc.canon_violation(v, root) for v in lin.lint(root))
+
+                def call(fl, iso, _proj, _op):
+                    return fl.lint(iso)
+                import shutil
+                iso = d / f"iso{k}" / "proj"
+                shutil.copytree(root, iso)
+                with oc.ProcessStateGuard():
+                    os.chdir(iso)
+                    fl = oc.fresh_linter(iso)
+                    fresh = sorted(oc.canon_violation(v, iso) for v in fl.lint(iso))
+                    del fl
+                os.chdir(root)
+                res["runs"].append({"used": used, "fresh": fresh, "state": dict(cur)})
+            res["failures"] = drain_failures()
+        except Exception as e:  # noqa: BLE001
+            import traceback
+            res["error"] = f"{type(e).__name__}: {e}\n{traceback.format_exc()[-1000:]}"
+        finally:
+            os.chdir(old_cwd)
+    return res
+
+
+def judge_directive(chk: Check, case: dict, res: dict):
+    if res["error"]:
+        chk.violation({"reason": "the implementation raised in a suppression-comment scenario: " + res["error"][:400], "case": {"directive_case": case}})
+        return
+    changed = set()
+    for k, run_ in enumerate(res["runs"]):
+        if k:
+            changed.add(case["steps"][k - 1][0])
+        chk.traces_validated += 1
+        if run_["used"] == run_["fresh"]:
+            continue
+        diff = [v for v in run_["used"] if v not in run_["fresh"]] + [v for v in run_["fresh"] if v not in run_["used"]]
+        info = {"step": k, "state": run_["state"], "used_only": [v for v in run_["used"] if v not in run_["fresh"]][:4],
+                "fresh_only": [v for v in run_["fresh"] if v not in run_["used"]][:4]}
+        # the listed defect: only stringly-typed findings differ, only in (or pointing at) runs after a suppression comment of a
+        # file changed on an object whose stringly-typed IgnoreChecker had read that file before
+        if k and changed and all(str(v[0]).startswith("stringly-typed") for v in diff):
+            chk.known_finding(DIR_KEY, {**info, "files": sorted(case["files"]), "steps": case["steps"], "init": case["init"]})
+        else:
+            chk.violation({"reason": "a used Linter and a fresh one disagree after a suppression comment changed, outside the listed stringly-typed ignore-cache defect",
+                           **info, "case": {"directive_case": case}})
+
+
 # ------------------------------------------------------------------ decision
 def run(tier: str, seed: int, replay: str | None = None) -> int:
     chk = Check(PROP, tier, seed)
@@ -585,12 +697,15 @@ def run(tier: str, seed: int, replay: str | None = None) -> int:
     chk.build(["theories/Props/C08.v"], ["OrchHistGen"], known_v=["theories/Props/C08Known.v"])
     phases["build"] = round(_t.time() - t0, 1)
     scale = chk.budget_scale()
-    n = (100 if tier == "quick" else 1200) * scale
+    n = (85 if tier == "quick" else 1000) * scale
+    dcases = directive_cases(seed, 14 if tier == "quick" else 150)
     n = min(n, int(os.environ.get("VERIF_CASES_CAP", n)))   # self-test runs on mutated copies use a smaller budget
     max_ops = 12 if tier == "quick" else 16
     if replay:
         rc = json.loads(Path(replay).read_text())["violation"].get("case", {})
-        if "proj" in rc:
+        if "directive_case" in rc:
+            cases, cjobs, dcases = [], [], [rc["directive_case"]]
+        elif "proj" in rc:
             cases, cjobs = [{"i": "replay", "proj": rc["proj"], "history": rc["history"]}], []
         else:   # a command-line level observation: re-run the command-line scenarios
             cases, cjobs = [], cli_jobs(seed, tier)
@@ -603,6 +718,7 @@ def run(tier: str, seed: int, replay: str | None = None) -> int:
     t1 = _t.time()
     impls = pool_map(run_impl, cases, procs=8)
     phases["histories_on_implementation"] = round(_t.time() - t1, 1)
+    dres = pool_map(run_directive_case, dcases, procs=8) if dcases else []
     t1 = _t.time()
     cli_obs = pool_map(cli_job, cjobs, procs=8, chunks=1) if cjobs else []
     phases["cli_runs"] = round(_t.time() - t1, 1)
@@ -710,6 +826,10 @@ def run(tier: str, seed: int, replay: str | None = None) -> int:
             else:
                 chk.violation({"reason": "result of a call on a used object differs from the specification (fresh object, canonical order) and the listed defects do not explain it",
                                "model_actual_matches_impl": cand[0], "model_ideal_matches_spec": ideal_ok, **info})
+    for dc, dr in zip(dcases, dres):
+        chk.count(["directive", dc["files"], dc["init"], dc["steps"]], not dr["error"] and any(r_["used"] for r_ in dr["runs"]))
+        chk.dist("directive_scenarios")
+        judge_directive(chk, dc, dr)
     for obs in cli_obs:
         chk.count(["cli", obs["kind"], obs["args"], [r["argv"] for r in obs["runs"]], [r["env"] for r in obs["runs"]]],
                   any(r["violations"] for r in obs["runs"]))
